@@ -169,6 +169,11 @@ def run(repo: Repo, rep: Report, tier: str) -> None:
 
     with_flatten_fallback(rep, grh, _no_content_rules)
 
+    from rules._memo import local_memo_rule
+
+    local_memo_rule(repo, rep, "R5.10", ("core.loader",),
+                    "An IRResponse carries the status code it was declared under: a component response referenced under 200 and 201 keeps the first code, "
+                    "the handler gets no arm for the other one and a conforming answer raises 'Unhandled status code'.")
     _streaming_runtime(repo, rep)
     _stream_classification(repo, rep)
     _alias_classification(repo, rep)
